@@ -20,6 +20,15 @@ Print Assumptions C19_target_columns_keys.
 Theorem C19_column_inverse : forall k c, 1 <= k <= 10 -> 0 <= c < k -> column (column_to_pos c k) (of_Z k) = c.
 Proof. exact column_inverse. Qed.
 Print Assumptions C19_column_inverse.
+(* the same for the unclamped quotient: every note the conversion writes through column_to_pos lies
+   strictly inside the stage (x < 512), which is what "a column below the key count" means *)
+Theorem C19_column_raw_inverse : forall k c, 1 <= k <= 10 -> 0 <= c < k -> column_raw (column_to_pos c k) (of_Z k) = c.
+Proof. exact column_raw_inverse. Qed.
+Print Assumptions C19_column_raw_inverse.
+Theorem C19_column_clamp_hides_512 :
+  column_raw (column_to_pos 8 8) (of_Z 8) = 8 /\ column (column_to_pos 8 8) (of_Z 8) = 7.
+Proof. exact column_clamp_hides_512. Qed.
+Print Assumptions C19_column_clamp_hides_512.
 Theorem C19_column_below : forall k x, 1 <= k <= 18 -> 0 <= x <= 512 -> column (of_Z x) (of_Z k) < k.
 Proof. exact column_below. Qed.
 Print Assumptions C19_column_below.
